@@ -39,56 +39,61 @@ static int read_varint(const uint8_t* data, size_t size, size_t* pos, uint32_t* 
 }
 
 static bool start_new_run(carquet_rle_decoder_t* dec) {
-    if (dec->pos >= dec->size) {
-        return false;
-    }
-
-    /* Read header */
-    uint32_t header;
-    if (read_varint(dec->data, dec->size, &dec->pos, &header) < 0) {
-        dec->status = CARQUET_ERROR_INVALID_RLE;
-        return false;
-    }
-
-    if ((header & 1) == 0) {
-        /* RLE run */
-        dec->in_rle_run = true;
-        dec->run_remaining = (int64_t)(header >> 1);
-
-        if (dec->run_remaining == 0) {
-            /* Empty run, try next */
-            return start_new_run(dec);
+    /* Empty runs (count 0, which the format allows) are stepped over in a loop:
+     * recursing once per empty run lets a few megabytes of zero bytes exhaust
+     * the stack. */
+    for (;;) {
+        if (dec->pos >= dec->size) {
+            return false;
         }
 
-        /* Read the repeated value (ceil(bit_width/8) bytes) */
-        int value_bytes = (dec->bit_width + 7) / 8;
-        if (dec->pos + (size_t)value_bytes > dec->size) {
+        /* Read header */
+        uint32_t header;
+        if (read_varint(dec->data, dec->size, &dec->pos, &header) < 0) {
             dec->status = CARQUET_ERROR_INVALID_RLE;
             return false;
         }
 
-        dec->rle_value = 0;
-        for (int i = 0; i < value_bytes; i++) {
-            dec->rle_value |= (uint32_t)dec->data[dec->pos++] << (i * 8);
+        if ((header & 1) == 0) {
+            /* RLE run */
+            dec->in_rle_run = true;
+            dec->run_remaining = (int64_t)(header >> 1);
+
+            /* Read the repeated value (ceil(bit_width/8) bytes). It follows the
+             * header of an empty run as well and must be consumed there too. */
+            int value_bytes = (dec->bit_width + 7) / 8;
+            if (dec->pos + (size_t)value_bytes > dec->size) {
+                dec->status = CARQUET_ERROR_INVALID_RLE;
+                return false;
+            }
+
+            dec->rle_value = 0;
+            for (int i = 0; i < value_bytes; i++) {
+                dec->rle_value |= (uint32_t)dec->data[dec->pos++] << (i * 8);
+            }
+            dec->rle_value &= dec->value_mask;
+
+            if (dec->run_remaining == 0) {
+                continue;  /* Empty run, try next */
+            }
+
+        } else {
+            /* Bit-packed run */
+            dec->in_rle_run = false;
+            int num_groups = (int)(header >> 1);  /* Number of 8-value groups */
+            dec->run_remaining = (int64_t)num_groups * 8;
+
+            if (dec->run_remaining == 0) {
+                continue;
+            }
+
+            /* We'll decode 8 values at a time into the buffer */
+            dec->bitpack_pos = 0;
+            dec->bitpack_count = 0;
         }
-        dec->rle_value &= dec->value_mask;
 
-    } else {
-        /* Bit-packed run */
-        dec->in_rle_run = false;
-        int num_groups = (int)(header >> 1);  /* Number of 8-value groups */
-        dec->run_remaining = (int64_t)num_groups * 8;
-
-        if (dec->run_remaining == 0) {
-            return start_new_run(dec);
-        }
-
-        /* We'll decode 8 values at a time into the buffer */
-        dec->bitpack_pos = 0;
-        dec->bitpack_count = 0;
+        return true;
     }
-
-    return true;
 }
 
 static bool fill_bitpack_buffer(carquet_rle_decoder_t* dec) {
@@ -294,18 +299,26 @@ static void write_varint(carquet_rle_encoder_t* enc, uint32_t value) {
 static void flush_rle(carquet_rle_encoder_t* enc) {
     if (enc->repeat_count == 0) return;
 
-    /* Write RLE header: (count << 1) | 0 */
-    write_varint(enc, (uint32_t)(enc->repeat_count << 1));
-
-    /* Write value (ceil(bit_width/8) bytes) */
     int value_bytes = (enc->bit_width + 7) / 8;
     uint8_t bytes[4];
     for (int i = 0; i < value_bytes; i++) {
         bytes[i] = (uint8_t)(enc->prev_value >> (i * 8));
     }
-    enc_append(enc, bytes, (size_t)value_bytes);
 
-    enc->repeat_count = 0;
+    /* The run header (count << 1) is a 32-bit varint: a run longer than
+     * 2^31 - 1 values is written as several runs of the same value instead
+     * of being truncated. */
+    while (enc->repeat_count > 0) {
+        int64_t run = enc->repeat_count > 0x7FFFFFFF ? 0x7FFFFFFF : enc->repeat_count;
+
+        /* Write RLE header: (count << 1) | 0 */
+        write_varint(enc, (uint32_t)((uint64_t)run << 1));
+
+        /* Write value (ceil(bit_width/8) bytes) */
+        enc_append(enc, bytes, (size_t)value_bytes);
+
+        enc->repeat_count -= run;
+    }
 }
 
 static void flush_bitpack(carquet_rle_encoder_t* enc) {
@@ -494,9 +507,12 @@ int64_t carquet_rle_decode_levels(
         if ((header & 1) == 0) {
             /* RLE run: fill output with repeated value */
             int64_t run_length = (int64_t)(header >> 1);
-            if (run_length == 0) continue;
 
             if (pos + (size_t)value_bytes > input_size) break;
+            if (run_length == 0) {
+                pos += (size_t)value_bytes;  /* an empty run still carries its value */
+                continue;
+            }
 
             /* Read the repeated value */
             uint32_t rle_value = 0;
